@@ -18,6 +18,7 @@ EXPLANATION = (
     "len(freduce) + len(mirror in fexpand) == ns and two-sided fscale has ns entries, for both parities; (D5) element k of "
     "fscale is k / ns / si with k from arange(0, floor(ns/2)+1); ns_optim_fft picks by left-sided searchsorted on the sorted "
     "2^a 3^b table. Numerical equality with direct convolution / the FFT is NOT decided."
+    ' (D2 as built) the un-padding slice keeps nsx + nsw samples and the transform is at least that long (argument of ns_optim_fft >= the slice bound); D4 / D5 evaluate take / arange counts under both parities instead of matching their spelling.'
 )
 ASSUMPTIONS = [
     "numpy/scipy irfft(X, n) returns n samples; without n it returns 2*(len(X)-1) (model table)",
